@@ -365,6 +365,8 @@ class Rewriter:
                 tt['otherwise'] = B0 + ot['otherwise']
             elif k == 'call':
                 tt['args'] = [map_op(a) for a in ot['args']]
+                if ot.get('func'):
+                    tt['func'] = map_op(ot['func'])
                 tt['dest'] = map_place(ot['dest'])
                 tt['to'] = B0 + ot['to'] if ot['to'] >= 0 else -1
             elif k in ('unreachable', 'resume', 'abort'):
